@@ -98,6 +98,11 @@ def gen_family(rng, n_units=None, n_stores=None, allow_bad=False, mix_dimless=Fa
         stores.append(rng.choice([None, rng.randrange(s), rng.randrange(s)]))
     n = n_units or rng.randint(8, 12)
     names = rng.sample(NAMES, min(n, len(NAMES)))
+    if ns > 1 and rng.random() < 0.6:
+        # the same user name defined in several stores with different meanings (namespaces must keep them apart)
+        for _ in range(rng.choice([1, 2, 3])):
+            i, j = rng.randrange(len(names)), rng.randrange(len(names))
+            names[j] = names[i]
     n_clusters = rng.choice([2, 2, 3])
     clusters = []
     for recipe in rng.sample(recipes or RECIPES, n_clusters):
@@ -105,10 +110,21 @@ def gen_family(rng, n_units=None, n_stores=None, allow_bad=False, mix_dimless=Fa
     if (rng.random() < 0.35) if with_base is None else with_base:
         clusters.append({'recipe': None, 'members': []})      # a new base unit and its derivatives
     defs = []
+    taken = set()
+
+    def free_store(name, preferred=None):
+        cands = [s for s in range(ns) if (s, name) not in taken]
+        if preferred is not None and preferred in cands:
+            return preferred
+        return rng.choice(cands) if cands else None
+
     for name in names:
         cl = rng.choice(clusters)
+        if all((s, name) in taken for s in range(ns)):
+            continue
         if cl['recipe'] is None and not cl['members']:
-            s = rng.randrange(ns)
+            s = free_store(name)
+            taken.add((s, name))
             defs.append({'kind': 'base', 'store': s, 'name': name})
             cl['members'].append((s, name))
             continue
@@ -144,6 +160,11 @@ def gen_family(rng, n_units=None, n_stores=None, allow_bad=False, mix_dimless=Fa
             elems.append({'units': 'dimensionless', 'multiplier': rng.choice(MULTIPLIERS)})
         if allow_bad and rng.random() < 0.08:
             elems.append({'units': rng.choice(['nosuchunit', 'celsius'] + NAMES)})
+        if (s, name) in taken:
+            if any(e['units'] not in SI for e in elems):
+                continue          # refers to user units of store s: cannot move to another store
+            s = free_store(name)
+        taken.add((s, name))
         defs.append({'kind': 'def', 'store': s, 'name': name, 'elems': elems})
         cl['members'].append((s, name))
     return {'stores': stores, 'defs': defs}
